@@ -209,6 +209,9 @@ def run(tier, seed):
         if val["outcome"] != "passed":
             obligations.append({"engine": "smt", "harness": "s07_node_validation", "verdict": "inconclusive", "queries": 0, "solver_s": 0,
                                 "message": "the dispatch obligations are discharged but real nodes do not serve the same state through the three paths: %s" % val["message"]})
+    # inside a component: the MCP registry on a node that applied the log one by one and on a node that went through start-up replay
+    from . import c07mcp
+    obligations.append(c07mcp.run(tier, seed))
     info["wall_s"] = round(time.time() - t0, 1)
     return {"obligations": obligations, "info": info}
 
